@@ -371,6 +371,28 @@ def gen_history(rng, ctx):
                                       'KEYWORDS_ORACLE', 'KEYWORDS_MYSQL'])})
             for _ in range(rng.randint(0, 2)):
                 ops_.append(pal.call(rng))
+            if rng.random() < 0.4:
+                # the same call before and after a fault, all under the
+                # custom configuration
+                rep = pal.call(rng)
+                ops_.append(copy.deepcopy(rep))
+                flt = pal.call(rng)
+                if rng.random() < 0.5:
+                    flt = {'op': 'call', 'api': rng.choice(
+                        ['parse', 'format', 'parsestream']),
+                        'inp': {'t': 'nest', 'c': rng.choice(
+                            ['paren', 'func', 'case', 'subquery']),
+                            'd': rng.choice([10, 25, 40])},
+                        'opts': None, 'enc': None,
+                        'fault': {'kind': 'headroom',
+                                  'H': rng.randint(3, 60), 'P': 0}}
+                    if flt['api'] == 'format':
+                        flt['opts'] = {'reindent': True}
+                else:
+                    flt['fault'] = {'kind': 'interrupt',
+                                    'at': rng.randint(1, 800)}
+                ops_.append(flt)
+                ops_.append(copy.deepcopy(rep))
             if open_handles and rng.random() < 0.4:
                 ops_.append({'op': 'gen_next', 'h': rng.choice(open_handles),
                              'n': 1})
@@ -613,6 +635,7 @@ PERTURBING = {'gen_close', 'gen_throw', 'gen_drop', 'lex_clear',
 def run_history(spec, refs):
     ses = ops.Session()
     viols = []
+    custom_seen = {}
     perturbed = False
     nontrivial = False
     sigparts = []
@@ -641,6 +664,27 @@ def run_history(spec, refs):
                 '!' if out['k'] != 'ok' else ''))
             if not rec['default_config']:
                 ses.stat('call_while_reconfigured')
+                # no pristine reference exists for a custom configuration,
+                # but while ONE configuration is in force identical calls
+                # must agree with each other, whatever happened in between
+                if not faulted and out['k'] != 'int':
+                    ck = (rec['epoch'], rec['key'])
+                    prev = custom_seen.get(ck)
+                    if prev is None:
+                        custom_seen[ck] = out
+                    else:
+                        ses.stat('custom_config_repeat_checked')
+                        if not canon.same(out, prev):
+                            viols.append({
+                                'cls': 'history:custom-config',
+                                'op_index': i, 'api': op['api'],
+                                'got': canon.short(out),
+                                'want': canon.short(prev),
+                                'msg': 'call #%d %s, made while a custom '
+                                       'lexer configuration is in force, '
+                                       'differs from the identical earlier '
+                                       'call under the same configuration'
+                                       % (i, op['api'])})
                 if out['k'] != 'ok':
                     perturbed = True
                 continue
@@ -1035,7 +1079,8 @@ PROBES = ['probe_descheduled_holding_lexer_lock',
           'interrupt_fired', 'interrupt_in_lexer_init',
           'interrupt_in_lazy_pipeline',
           'interrupt_in_indent_filter', 'interrupt_in_splitter',
-          'headroom_fired', 'instr_points', 'long_histories']
+          'headroom_fired', 'instr_points', 'long_histories',
+          'custom_config_repeat_checked']
 
 COMPONENTS = {
     'real': ['all of sqlparse (lexer, splitter, grouping, filters, '
